@@ -233,9 +233,14 @@ func GenSteps(t *rapid.T, n int, distinctRoots bool, cancelWeight int) []Step {
 		pre = append(pre, Step{Op: &op})
 	}
 	steps := append(pre, rapid.SliceOfN(stepGen, 1, n).Draw(t, "steps")...)
-	// a common maintenance sequence: one node of a registered pipeline is replaced by a new instance under the same
-	// id and the pipeline is registered again with an UNCHANGED definition; the next Send must use the new node
-	if rapid.IntRange(0, 2).Draw(t, "reRegisterUnchanged") == 0 {
+	// common maintenance sequences around ONE registered pipeline, inserted somewhere after its registration:
+	//  0 a node of it is replaced by a new instance under the same id, the UNCHANGED definition is registered again, Send
+	//  1 it is removed, removed once more (a no-op), registered again, Send
+	//  2 it is removed and registered again, then a Send that may be cancelled at a hook
+	//  3 its sink id is re-registered as a FILTER and then as a sink again (the id's type changed in between), the
+	//    definition is registered again, Send
+	//  4 an earlier-registered pipeline of the type is removed, then this one is overwritten with another sink, Send
+	if rapid.IntRange(0, 1).Draw(t, "maintenance") == 0 {
 		var regs []int
 		for i, st := range steps {
 			if st.Op != nil && st.Op.K == "regpipe" && len(st.Op.IDs) >= 2 {
@@ -243,16 +248,45 @@ func GenSteps(t *rapid.T, n int, distinctRoots bool, cancelWeight int) []Step {
 			}
 		}
 		if len(regs) > 0 {
-			i := regs[rapid.IntRange(0, len(regs)-1).Draw(t, "reRegisterWhich")]
+			ri := rapid.IntRange(0, len(regs)-1).Draw(t, "maintainWhich")
+			i := regs[ri]
 			def := *steps[i].Op
 			def.IDs = append([]string(nil), def.IDs...)
 			def.Pol, def.Dress = 0, 0
-			id := def.IDs[rapid.IntRange(0, len(def.IDs)-1).Draw(t, "replacedNode")]
-			repl := model.Op{K: "regnode", N: id, NT: IntendedType(id)}
 			send := GenSend(t, distinctRoots, 0)
 			send.ET, send.Ctx, send.Reentrant = def.ET, 0, nil
-			at := rapid.IntRange(i+1, len(steps)).Draw(t, "reRegisterAt")
-			ins := []Step{{Op: &repl}, {Op: &def}, {Send: send}}
+			rm := model.Op{K: "rmpipe", ET: def.ET, P: def.P}
+			var ins []Step
+			switch rapid.IntRange(0, 4).Draw(t, "maintenanceKind") {
+			case 0:
+				id := def.IDs[rapid.IntRange(0, len(def.IDs)-1).Draw(t, "replacedNode")]
+				repl := model.Op{K: "regnode", N: id, NT: IntendedType(id)}
+				ins = []Step{{Op: &repl}, {Op: &def}, {Send: send}}
+			case 1:
+				rm2 := rm
+				ins = []Step{{Op: &rm}, {Op: &rm2}, {Op: &def}, {Send: send}}
+			case 2:
+				cs := GenSend(t, distinctRoots, 6)
+				cs.ET, cs.Reentrant = def.ET, nil
+				ins = []Step{{Op: &rm}, {Op: &def}, {Send: cs}, {Send: send}}
+			case 3:
+				sid := def.IDs[len(def.IDs)-1]
+				asFilter := model.Op{K: "regnode", N: sid, NT: int(eventlogger.NodeTypeFilter)}
+				asSink := model.Op{K: "regnode", N: sid, NT: int(eventlogger.NodeTypeSink)}
+				ins = []Step{{Op: &asFilter}, {Op: &asSink}, {Op: &def}, {Send: send}}
+			default:
+				over := def
+				over.IDs = append([]string(nil), def.IDs...)
+				over.IDs[len(over.IDs)-1] = Sinks[(len(def.IDs)+ri)%len(Sinks)]
+				if ri > 0 {
+					first := *steps[regs[0]].Op
+					rmFirst := model.Op{K: "rmpipe", ET: first.ET, P: first.P}
+					ins = []Step{{Op: &rmFirst}, {Op: &over}, {Send: send}}
+				} else {
+					ins = []Step{{Op: &over}, {Send: send}}
+				}
+			}
+			at := rapid.IntRange(i+1, len(steps)).Draw(t, "maintainAt")
 			steps = append(steps[:at:at], append(ins, steps[at:]...)...)
 		}
 	}
